@@ -105,6 +105,17 @@ def run_one(seed, tape, opts):
     w = MailboxWorld(tape, opts)
     sim = w.sim
     sim.no_advance_while_connecting = True
+    if tape.choose(4, "many_hints") == 0:
+        # hosts with many interfaces: 10..14 addresses, i.e. as many direct
+        # hints a side; most of them lead nowhere (connects hang)
+        from simlib import boot as _boot
+        n_addr = 10 + tape.choose(5, "n_addr")
+        _boot.ADDRESSES[:] = ["127.0.0.1"] + ["10.1.0.%d" % (k + 1)
+                                               for k in range(n_addr)]
+        for k in range(n_addr):
+            if tape.choose(3, "addr_hangs") != 0:
+                sim.net.host_mode["10.1.0.%d" % (k + 1)] = "hang"
+        sim.note("probe.many_direct_hints")
     a = w.add_client("A", api="deferred", dilation=True, versions={})
     b = w.add_client("B", api="deferred", dilation=(peer_kind != "old_peer"),
                      versions={})
